@@ -5,7 +5,8 @@
    Start/Stop callers' atomic actions. *)
 From Coq Require Import List Arith Bool Permutation.
 Import ListNotations.
-From Modbus Require Import Model.Slots Proofs.SlotsP.
+From Coq Require Import ZArith.
+From Modbus Require Import Model.Slots Proofs.SlotsP Model.IdleTimer Proofs.IdleTimerP.
 
 (* the invariant holds in every reachable state, for every MaxClients and
    every interleaving *)
@@ -45,6 +46,24 @@ Theorem c09_slot_reclaimed : forall s c d, Inv s -> stat s c = Ended -> started 
   stat s2 d = Serving /\ In d (clients s2).
 Proof. exact slot_reclaimed. Qed.
 
+(* T5: idle expiry, over every admissible history of request reads of a
+   session: the session is closed no earlier than the timeout after the last
+   request read began, and a connection that stays idle is closed at exactly
+   that instant *)
+Theorem c09_idle_not_early : forall timeout t0 tr t,
+  idle_valid timeout (idle_init t0) (tr ++ [IExpire t]) = true ->
+  exists r, last_read_start tr None = Some r /\ (r + timeout <= t)%Z.
+Proof. exact idle_not_early. Qed.
+Theorem c09_idle_expiry_enabled : forall timeout t0 tr r, (0 <= timeout)%Z ->
+  idle_valid timeout (idle_init t0) (tr ++ [IReadStart r]) = true ->
+  idle_valid timeout (idle_init t0) ((tr ++ [IReadStart r]) ++ [IExpire (r + timeout)]) = true.
+Proof. exact idle_expiry_enabled. Qed.
+
+Example c09_ex_idle :
+  idle_valid 200 (idle_init 0) [IReadStart 0; IRequest 50; IReadStart 51; IExpire 251] = true /\
+  idle_valid 200 (idle_init 0) [IReadStart 0; IRequest 50; IReadStart 51; IExpire 250] = false.
+Proof. vm_compute. split; reflexivity. Qed.
+
 (* non-vacuity: a trace that reaches the limit, rejects, reclaims *)
 Example c09_ex :
   let tr := [Start; Arrive 1; Take 1; Enrol 1; Arrive 2; Take 2; Enrol 2;
@@ -59,3 +78,5 @@ Print Assumptions c09_full_rejects.
 Print Assumptions c09_rejected_never_served.
 Print Assumptions c09_remove_exact.
 Print Assumptions c09_slot_reclaimed.
+Print Assumptions c09_idle_not_early.
+Print Assumptions c09_idle_expiry_enabled.
